@@ -574,3 +574,485 @@ pub fn c06_spline(rep: &mut Report, rng: &mut Rng, thorough: bool, ncases: usize
     }
     let _ = bracket_scan;
 }
+
+// ---------------------------------------------------------------- C16: polynomial reproduction
+fn poly3(c: &[f64; 4], x: f64) -> f64 {
+    c[0] + x * (c[1] + x * (c[2] + x * c[3]))
+}
+fn poly3_val(c: &[f64; 4], x: &Val) -> Val {
+    let cv: Vec<Val> = c.iter().map(|&v| Val::from_f64(v)).collect();
+    poly_eval(&cv, x)
+}
+fn small_coef(rng: &mut Rng) -> f64 {
+    rng.range(-12, 12) as f64 * 0.25
+}
+/// axis on a coarse dyadic grid so that cubic values are exact doubles
+fn coarse_axis(rng: &mut Rng, n: usize) -> Vec<f64> {
+    let mut cur = rng.range(-24, 8) as f64 * 0.25;
+    let mut v = vec![];
+    for _ in 0..n {
+        v.push(cur);
+        cur += match rng.below(4) { 0 => 0.25, 1 => 0.5, 2 => 1.0, _ => rng.range(1, 12) as f64 * 0.25 };
+    }
+    v
+}
+fn dense_queries(ax: &[f64], outside: bool) -> Vec<f64> {
+    let mut q = vec![];
+    for w in ax.windows(2) {
+        for t in [0.0, 0.25, 0.5, 0.75, 1.0] {
+            q.push(w[0] + (w[1] - w[0]) * t);
+        }
+    }
+    if outside {
+        let span = ax[ax.len() - 1] - ax[0];
+        for k in [0.25, 1.0, 2.5] {
+            q.push(ax[0] - span * k);
+            q.push(ax[ax.len() - 1] + span * k);
+        }
+    }
+    q
+}
+
+pub fn run_c16(cfg: &Cfg) {
+    let mut rep = Report::new("C16", &cfg.out);
+    let ks = rep.kind(SPLINE_KIND.0, SPLINE_KIND.1);
+    let k1 = rep.kind("scen1_ok_qc", "(scen1 Qc * (bout * list (rout Qc)))");
+    let k2 = rep.kind("scen2_ok_qc", "(scen2 Qc * (bout * list (rout Qc)))");
+    rep.shard_size = 0;
+    let mut rng = Rng::new(cfg.seed);
+    let thorough = cfg.tier == "thorough";
+    let ncases = if thorough { 4000 } else { 320 };
+    for ci in 0..ncases {
+        let which = ci % 8;
+        let ext = rng.coin();
+        let lanes = 1 + rng.below(3) as usize;
+        let trail = if lanes == 1 && rng.coin() { vec![] } else { vec![lanes] };
+        // per-lane polynomial
+        let mut polys: Vec<[f64; 4]> = vec![];
+        let (n, label): (usize, &str);
+        let bc: Option<Bc>;
+        match which {
+            0 => { n = rng.range(2, 12) as usize; label = "linear-affine"; bc = None; for _ in 0..lanes { polys.push([small_coef(&mut rng), small_coef(&mut rng), 0.0, 0.0]); } }
+            1 | 2 => { n = rng.range(4, if thorough { 24 } else { 12 }) as usize; label = "notaknot-cubic"; bc = Some(Bc::NotAKnot);
+                       for _ in 0..lanes { polys.push([small_coef(&mut rng), small_coef(&mut rng), small_coef(&mut rng), small_coef(&mut rng)]); } }
+            3 => { n = 3; label = "notaknot3-quadratic"; bc = Some(Bc::NotAKnot);
+                   for _ in 0..lanes { polys.push([small_coef(&mut rng), small_coef(&mut rng), small_coef(&mut rng), 0.0]); } }
+            4 => { n = rng.range(3, 12) as usize; label = "natural-affine"; bc = Some(Bc::Natural);
+                   for _ in 0..lanes { polys.push([small_coef(&mut rng), small_coef(&mut rng), 0.0, 0.0]); } }
+            5 | 6 => {
+                n = rng.range(3, 12) as usize; label = "deriv-bc-cubic";
+                for _ in 0..lanes { polys.push([small_coef(&mut rng), small_coef(&mut rng), small_coef(&mut rng), small_coef(&mut rng)]); }
+                bc = Some(Bc::NotAKnot); // replaced below once the axis is known
+            }
+            _ => { n = 0; label = "bilinear"; bc = None; }
+        }
+        rep.count(label);
+        if which == 7 {
+            // bilinear function per lane
+            let nx = rng.range(2, 7) as usize;
+            let ny = rng.range(2, 7) as usize;
+            let xa = coarse_axis(&mut rng, nx);
+            let ya = coarse_axis(&mut rng, ny);
+            let coefs: Vec<[f64; 4]> = (0..lanes).map(|_| [small_coef(&mut rng), small_coef(&mut rng), small_coef(&mut rng), small_coef(&mut rng)]).collect();
+            let f = |c: &[f64; 4], x: f64, y: f64| c[0] + c[1] * x + c[2] * y + c[3] * x * y;
+            let cells = xa.iter().map(|&x| ya.iter().map(|&y| coefs.iter().map(|c| f(c, x, y)).collect()).collect()).collect();
+            let qx = dense_queries(&xa, ext);
+            let qy = dense_queries(&ya, ext);
+            let queries: Vec<(f64, f64)> = (0..qx.len().max(qy.len())).map(|i| (qx[i % qx.len()], qy[(i * 5 + 1) % qy.len()])).collect();
+            let sc = Scen2 { ext, xax: Some(xa), yax: Some(ya), cells, trail: trail.clone(), queries };
+            arena_reset();
+            let rx = sc.run::<XRat>();
+            rep.eval(Some(&format!("{:?}", sc)));
+            for (qi, &(x, y)) in sc.queries.iter().enumerate() {
+                let (xv, yv) = (Val::from_f64(x), Val::from_f64(y));
+                let want: Vec<Val> = coefs.iter().map(|c| {
+                    let cv: Vec<Val> = c.iter().map(|&v| Val::from_f64(v)).collect();
+                    cv[0].add(&cv[1].mul(&xv)).add(&cv[2].mul(&yv)).add(&cv[3].mul(&xv).mul(&yv))
+                }).collect();
+                if rx.1.get(qi) != Some(&Out::Ok(want.clone())) {
+                    rep.fail("Bilinear does not reproduce a bilinear function (exact run)",
+                             obj(vec![("scenario", sc.to_json()), ("query", s(format!("{:?}", (x, y)))), ("got", rx.1.get(qi).map(out_json).unwrap_or(J::Null))]));
+                    break;
+                }
+            }
+            let term = format!("({}, {})", sc.to_coq(&qc), outs_coq(&rx.0, &rx.1, &|v| v.to_coq_qc()));
+            rep.coq_case(k2, term, sc.to_json());
+            continue;
+        }
+        let axv = coarse_axis(&mut rng, n);
+        let rows: Vec<Vec<f64>> = axv.iter().map(|&x| polys.iter().map(|p| poly3(p, x)).collect()).collect();
+        let strat = match (which, bc) {
+            (0, _) => Strat1::Linear,
+            (5, _) | (6, _) => {
+                // boundary values taken from each lane's cubic, any mix with NotAKnot
+                let d1 = |p: &[f64; 4], x: f64| p[1] + 2.0 * p[2] * x + 3.0 * p[3] * x * x;
+                let d2 = |p: &[f64; 4], x: f64| 2.0 * p[2] + 6.0 * p[3] * x;
+                let (x0, xn) = (axv[0], axv[n - 1]);
+                let per: Vec<RowBc> = polys.iter().map(|p| {
+                    let mut side = |x: f64, rng: &mut Rng| match rng.below(3) {
+                        0 => Single::FirstDeriv(d1(p, x)),
+                        1 => Single::SecondDeriv(d2(p, x)),
+                        _ => Single::NotAKnot,
+                    };
+                    let mut l = side(x0, &mut rng);
+                    let r = side(xn, &mut rng);
+                    if n == 3 && l == Single::NotAKnot && r == Single::NotAKnot {
+                        l = Single::FirstDeriv(d1(p, x0)); // 3-point NotAKnot pair only reproduces quadratics
+                    }
+                    RowBc::Mixed(l, r)
+                }).collect();
+                let mut shape = vec![1];
+                shape.extend_from_slice(&trail);
+                Strat1::Spline(Bc::Individual(per, shape))
+            }
+            (_, Some(b)) => Strat1::Spline(b),
+            _ => unreachable!(),
+        };
+        let sc = Scen1 { strat, ext, ax: Some(axv.clone()), rows, trail: trail.clone(), queries: dense_queries(&axv, ext) };
+        arena_reset();
+        let rx = sc.run::<XRat>();
+        rep.eval(Some(&format!("{:?}", sc)));
+        if rx.0 != BuildOut::Built {
+            rep.fail(&format!("build failed: {:?}", rx.0), sc.to_json());
+            continue;
+        }
+        for (qi, &q) in sc.queries.iter().enumerate() {
+            let qv = Val::from_f64(q);
+            let want: Vec<Val> = polys.iter().map(|p| poly3_val(p, &qv)).collect();
+            if rx.1.get(qi) != Some(&Out::Ok(want.clone())) {
+                rep.fail(&format!("{}: the polynomial is not reproduced (exact run)", label),
+                         obj(vec![("scenario", sc.to_json()), ("query", s(format!("{:?}", q))), ("got", rx.1.get(qi).map(out_json).unwrap_or(J::Null)),
+                                  ("want", J::A(want.iter().map(|v| s(v.to_text())).collect()))]));
+                break;
+            }
+        }
+        if which == 0 {
+            let term = format!("({}, {})", sc.to_coq(&qc), outs_coq(&rx.0, &rx.1, &|v| v.to_coq_qc()));
+            rep.coq_case(k1, term, sc.to_json());
+        } else {
+            add_spline_coq(&mut rep, ks, &sc, &rx);
+            check_float_follows(&mut rep, &sc, &rx, "C16");
+        }
+        if ci < 3 {
+            rep.sample(obj(vec![("kind", s(label)), ("scenario", sc.to_json())]));
+        }
+    }
+    rep.finish("data sampled from polynomials with dyadic coefficients on dyadic axes (values exact): Linear/affine, Bilinear/bilinear, NotAKnot/cubic (n>=4), 3-point NotAKnot/quadratic, Natural/affine, FirstDeriv/SecondDeriv/NotAKnot mixes with boundary values from the cubic; lanes hold different polynomials; dense in-range queries and, with extrapolation, up to 2.5 spans outside; exact run must equal the polynomial exactly");
+}
+
+// ---------------------------------------------------------------- C07: periodic spline
+pub fn run_c07(cfg: &Cfg) {
+    let mut rep = Report::new("C07", &cfg.out);
+    let ks = rep.kind(SPLINE_KIND.0, SPLINE_KIND.1);
+    rep.shard_size = 0;
+    let mut rng = Rng::new(cfg.seed);
+    let thorough = cfg.tier == "thorough";
+    let ncases = if thorough { 2500 } else { 220 };
+    for ci in 0..ncases {
+        let n = match rng.below(4) { 0 => 3, 1 => 4, _ => rng.range(3, if thorough { 20 } else { 10 }) as usize };
+        let (axv, class) = gen_spline_axis(&mut rng, n);
+        let trail = gen_trail(&mut rng);
+        let lanes: usize = trail.iter().product();
+        let mut rows = gen_rows(&mut rng, n, lanes, true);
+        rows[n - 1] = rows[0].clone();
+        let p = axv[n - 1] - axv[0];
+        // base abscissae in [x0, xn) and their images x + kP; both range ends and their images
+        let mut base = vec![axv[0], axv[n - 1]];
+        for w in axv.windows(2) {
+            base.push(w[0] + (w[1] - w[0]) * 0.5);
+            base.push(w[0] + (w[1] - w[0]) * (rng.range(1, 7) as f64 / 8.0));
+        }
+        base.push(next_up(axv[0]));
+        base.push(next_down(axv[n - 1]));
+        let mut queries = vec![];
+        let mut img_of = vec![]; // (index of base query, k)
+        for (bi, &b) in base.iter().enumerate() {
+            queries.push(b);
+            img_of.push((bi, 0i64));
+        }
+        let nb = base.len();
+        for (bi, &b) in base.iter().enumerate() {
+            for _ in 0..2 {
+                let k = match rng.below(4) { 0 => rng.range(-3, 3), 1 => rng.range(-100, 100), 2 => rng.range(-1000000, 1000000), _ => if rng.coin() { 1 } else { -1 } };
+                if k == 0 { continue; }
+                let img = b + k as f64 * p;
+                // only exact images (the f64 sum must be the exact sum)
+                if Val::from_f64(img) == Val::from_f64(b).add(&Val::int(k).mul(&Val::from_f64(p))) {
+                    queries.push(img);
+                    img_of.push((bi, k));
+                }
+            }
+        }
+        let sc = Scen1 { strat: Strat1::Spline(Bc::Periodic), ext: true, ax: Some(axv.clone()), rows, trail, queries };
+        rep.count(&format!("axis:{}", class));
+        rep.count(&format!("n:{}", n.min(8)));
+        arena_reset();
+        let rx = sc.run::<XRat>();
+        rep.eval(Some(&format!("{:?}", sc)));
+        if rx.0 != BuildOut::Built {
+            rep.fail(&format!("periodic build failed on data with equal end rows: {:?}", rx.0), sc.to_json());
+            continue;
+        }
+        for (qi, &(bi, k)) in img_of.iter().enumerate() {
+            if qi < nb { continue; }
+            rep.count("images");
+            // the image of the right end maps to the left end (equal values)
+            let want = if bi == 1 { &rx.1[0] } else { &rx.1[bi] };
+            if &rx.1[qi] != want || !matches!(rx.1[qi], Out::Ok(_)) {
+                rep.fail(&format!("S(x + k*P) differs from S(x) (exact run), k = {}", k),
+                         obj(vec![("scenario", sc.to_json()), ("x", s(format!("{:?}", base[bi]))), ("image", s(format!("{:?}", sc.queries[qi]))),
+                                  ("S_x", out_json(want)), ("S_image", out_json(&rx.1[qi]))]));
+                break;
+            }
+        }
+        // both ends evaluate to the (equal) first/last data value
+        let first: Vec<Val> = sc.rows[0].iter().map(|&v| Val::from_f64(v)).collect();
+        if rx.1[0] != Out::Ok(first.clone()) || rx.1[1] != Out::Ok(first) {
+            rep.fail("a range end does not evaluate to the first/last data value", sc.to_json());
+        }
+        add_spline_coq(&mut rep, ks, &sc, &rx);
+        // floats: discrete outcome equal, values within L*eps*|x| of the exact periodic value
+        let rf = sc.run::<f64>();
+        rep.evaluations += 1;
+        let scale = {
+            let mut m = Val::int(1);
+            for r in &sc.rows { for &v in r { m = vmax(&m, &Val::from_f64(v).abs()); } }
+            m
+        };
+        let hmin = axv.windows(2).map(|w| w[1] - w[0]).fold(f64::INFINITY, f64::min);
+        for (qi, o) in rf.1.iter().enumerate() {
+            match (o, &rx.1[qi]) {
+                (Out::Ok(v), Out::Ok(w)) => {
+                    // |S'| <= ~ 6 max|y| / hmin (loose); argument error <= eps*|x|
+                    let x = sc.queries[qi];
+                    let lip = Val::from_f64(64.0 / hmin);
+                    let b = Val::from_f64(f64::EPSILON).mul(&Val::from_f64(x.abs().max(p))).mul(&lip).mul(&scale)
+                        .add(&Val::from_f64((2.0f64).powi(-30)).mul(&scale));
+                    for l in 0..w.len() {
+                        if !within(&v[l], &w[l], &b) {
+                            rep.fail("f64: periodic value differs from the exact one by more than the rounding of the wrapped argument allows",
+                                     obj(vec![("scenario", sc.to_json()), ("query", s(format!("{:?}", x))), ("got", s(v[l].to_text())), ("exact", s(w[l].to_text()))]));
+                            break;
+                        }
+                    }
+                }
+                (a, b) => { rep.fail(&format!("f64: outcome {:?} but exact run {:?}", a, b), sc.to_json()); break; }
+            }
+        }
+        if ci == 0 { rep.sample(obj(vec![("scenario", sc.to_json())])); }
+    }
+    // Periodic without extrapolation behaves like any other boundary; non-periodic + extrapolate does not wrap
+    rep.finish("periodic data sets (n >= 3, all spline axis classes, 0-3 trailing axes) with extrapolation; queries: points of [x0,xn), both ends, the floats adjacent to the ends, and their exact images x + k*P for k in +-1, +-3, +-100, +-10^6; exact run: S(x+kP) == S(x) exactly, ends and their images give y0; model compared in Coq (values and coefficients); f64 within the bound given by the rounding of the wrapped argument");
+}
+
+// ---------------------------------------------------------------- C15: units and linearity
+fn scale_bc(bc: &Bc, data_c: f64, axis_c: f64) -> Bc {
+    // data * data_c, axis * axis_c: first derivatives scale by data_c/axis_c, second by data_c/axis_c^2
+    let sgl = |sb: &Single| match sb {
+        Single::FirstDeriv(v) => Single::FirstDeriv(v * data_c / axis_c),
+        Single::SecondDeriv(v) => Single::SecondDeriv(v * data_c / (axis_c * axis_c)),
+        o => o.clone(),
+    };
+    match bc {
+        Bc::Individual(rbs, sh) => Bc::Individual(rbs.iter().map(|rb| match rb {
+            RowBc::Mixed(l, r) => RowBc::Mixed(sgl(l), sgl(r)),
+            o => o.clone(),
+        }).collect(), sh.clone()),
+        o => o.clone(),
+    }
+}
+fn scale_out(o: &Out, c: &Val) -> Out {
+    match o {
+        Out::Ok(v) => Out::Ok(v.iter().map(|x| x.mul(c)).collect()),
+        other => other.clone(),
+    }
+}
+fn exact_mul(x: f64, c: f64) -> bool {
+    Val::from_f64(x * c) == Val::from_f64(x).mul(&Val::from_f64(c))
+}
+fn exact_add(x: f64, c: f64) -> bool {
+    Val::from_f64(x + c) == Val::from_f64(x).add(&Val::from_f64(c))
+}
+fn bc_values(bc: &Option<Bc>) -> Vec<f64> {
+    let mut v = vec![];
+    if let Some(Bc::Individual(rbs, _)) = bc {
+        for rb in rbs {
+            if let RowBc::Mixed(l, r) = rb {
+                for sb in [l, r] {
+                    match sb { Single::FirstDeriv(x) | Single::SecondDeriv(x) => v.push(*x), _ => {} }
+                }
+            }
+        }
+    }
+    v
+}
+fn bits_eq(a: &(BuildOut, Vec<Out>), b: &(BuildOut, Vec<Out>)) -> bool {
+    format!("{:?}", a) == format!("{:?}", b)
+}
+
+pub fn run_c15(cfg: &Cfg) {
+    let mut rep = Report::new("C15", &cfg.out);
+    let ks = rep.kind(SPLINE_KIND.0, SPLINE_KIND.1);
+    let k1 = rep.kind("scen1_ok_qc", "(scen1 Qc * (bout * list (rout Qc)))");
+    let k2 = rep.kind("scen2_ok_qc", "(scen2 Qc * (bout * list (rout Qc)))");
+    rep.shard_size = 0;
+    let mut rng = Rng::new(cfg.seed);
+    let thorough = cfg.tier == "thorough";
+    let ncases = if thorough { 3000 } else { 240 };
+    let pow2 = |rng: &mut Rng| (2.0f64).powi(rng.range(-20, 20) as i32);
+    for ci in 0..ncases {
+        let ext = rng.coin();
+        let two_d = ci % 4 == 3;
+        if two_d {
+            let (sc, _f, _c) = crate::lin::gen_bilinear_scen(&mut rng, thorough, ext, ext);
+            let sc = Scen2 { xax: Some(sc.xvals()), yax: Some(sc.yvals()), ..sc };
+            arena_reset();
+            let base = sc.run::<XRat>();
+            let basef = sc.run::<f64>();
+            rep.eval(Some(&format!("{:?}", sc)));
+            rep.count("bilinear");
+            // data * c
+            let c = if rng.coin() { pow2(&mut rng) } else { -1.0 };
+            let mut v1 = sc.clone();
+            for r in v1.cells.iter_mut() { for cc in r.iter_mut() { for x in cc.iter_mut() { *x *= c; } } }
+            let r1 = v1.run::<XRat>();
+            let cv = Val::from_f64(c);
+            let ok1 = sc.cells.iter().all(|r| r.iter().all(|cc| cc.iter().all(|&x| exact_mul(x, c))));
+            if ok1 && r1.1 != base.1.iter().map(|o| scale_out(o, &cv)).collect::<Vec<_>>() {
+                rep.fail("Bilinear: multiplying the data by c does not multiply the result by c (exact run)", obj(vec![("base", sc.to_json()), ("c", s(format!("{:?}", c)))]));
+            }
+            let r1f = v1.run::<f64>();
+            let want: Vec<String> = basef.1.iter().map(|o| match o { Out::Ok(v) => format!("{:?}", Out::Ok(v.iter().map(|x| x.mul(&cv)).collect())), o => format!("{:?}", o) }).collect();
+            let tiny = sc.queries.iter().any(|&(a, b)| (a != 0.0 && a.abs() < 1e-200) || (b != 0.0 && b.abs() < 1e-200));
+            if ok1 && !tiny && r1f.1.iter().map(|o| format!("{:?}", o)).collect::<Vec<_>>() != want {
+                rep.fail("Bilinear: scaling the data by a power of two / -1 is not bit-for-bit (f64)", obj(vec![("base", sc.to_json()), ("c", s(format!("{:?}", c)))]));
+            }
+            // independent power-of-two factors for x and y (axis and queries)
+            let (cx, cy) = (pow2(&mut rng), pow2(&mut rng));
+            let mut v2 = sc.clone();
+            v2.xax = Some(sc.xvals().iter().map(|x| x * cx).collect());
+            v2.yax = Some(sc.yvals().iter().map(|y| y * cy).collect());
+            v2.queries = sc.queries.iter().map(|&(a, b)| (a * cx, b * cy)).collect();
+            let r2 = v2.run::<XRat>();
+            let ok2 = sc.xvals().iter().all(|&x| exact_mul(x, cx)) && sc.yvals().iter().all(|&y| exact_mul(y, cy))
+                && sc.queries.iter().all(|&(a, b)| exact_mul(a, cx) && exact_mul(b, cy));
+            if !ok2 { rep.count("skipped:inexact-transform"); continue; }
+            if r2 != base {
+                rep.fail("Bilinear: scaling x by cx and y by cy (axes and queries) changes the result (exact run)", obj(vec![("base", sc.to_json()), ("cx", s(format!("{:?}", cx))), ("cy", s(format!("{:?}", cy)))]));
+            }
+            if !bits_eq(&v2.run::<f64>(), &basef) {
+                rep.fail("Bilinear: scaling the axes by powers of two is not bit-for-bit (f64)", obj(vec![("base", sc.to_json())]));
+            }
+            rep.evaluations += 4;
+            let term = format!("({}, {})", v2.to_coq(&qc), outs_coq(&r2.0, &r2.1, &|v| v.to_coq_qc()));
+            rep.coq_case(k2, term, v2.to_json());
+            continue;
+        }
+        let spline = ci % 4 != 0;
+        let sc = if spline {
+            let o = SplineOpts { nmax: if thorough { 16 } else { 9 }, ext, allow_periodic: true, force_bc: None, outside: ext };
+            let (mut sc, _c) = gen_spline_scen(&mut rng, &o);
+            sc.ax = Some(sc.axis_vals());
+            if matches!(sc.strat, Strat1::Spline(Bc::Periodic)) && ext {
+                // keep C15 to non-periodic extrapolation (C07 covers the wrap)
+                sc.ext = false;
+                let a = sc.axis_vals();
+                sc.queries.retain(|&q| q >= a[0] && q <= a[a.len() - 1]);
+            }
+            sc
+        } else {
+            let (mut sc, _f, _c) = crate::lin::gen_linear_scen(&mut rng, thorough, ext, ext);
+            sc.ax = Some(sc.axis_vals());
+            sc
+        };
+        let bc = match &sc.strat { Strat1::Spline(b) => Some(b.clone()), _ => None };
+        rep.count(if spline { "spline" } else { "linear" });
+        arena_reset();
+        let base = sc.run::<XRat>();
+        let basef = sc.run::<f64>();
+        rep.eval(Some(&format!("{:?}", sc)));
+        if base.0 != BuildOut::Built { rep.fail(&format!("build failed: {:?}", base.0), sc.to_json()); continue; }
+        // (1) data * c
+        let c = match rng.below(3) { 0 => -1.0, 1 => pow2(&mut rng), _ => rng.range(-40, 40) as f64 * 0.125 };
+        let cv = Val::from_f64(c);
+        let mut v1 = sc.clone();
+        for r in v1.rows.iter_mut() { for x in r.iter_mut() { *x *= c; } }
+        if let Some(b) = &bc { v1.strat = Strat1::Spline(scale_bc(b, c, 1.0)); }
+        let r1 = v1.run::<XRat>();
+        rep.evaluations += 1;
+        let ok1 = sc.rows.iter().all(|r| r.iter().all(|&x| exact_mul(x, c))) && bc_values(&bc).iter().all(|&x| exact_mul(x, c));
+        if !ok1 { rep.count("skipped:inexact-data-scale"); }
+        if ok1 && r1.1 != base.1.iter().map(|o| scale_out(o, &cv)).collect::<Vec<_>>() {
+            rep.fail("multiplying the data (and boundary values) by c does not multiply the result by c (exact run)", obj(vec![("base", sc.to_json()), ("c", s(format!("{:?}", c)))]));
+        }
+        let tiny = sc.queries.iter().chain(sc.axis_vals().iter()).any(|&a| a != 0.0 && a.abs() < 1e-200);
+        if ok1 && !tiny && (c == -1.0 || (c.abs().log2().fract() == 0.0 && c != 0.0)) {
+            let r1f = v1.run::<f64>();
+            let want: Vec<String> = basef.1.iter().map(|o| match o { Out::Ok(v) => format!("{:?}", Out::Ok(v.iter().map(|x| x.mul(&cv)).collect())), o => format!("{:?}", o) }).collect();
+            rep.count("bitwise:data-scale");
+            if r1f.1.iter().map(|o| format!("{:?}", o)).collect::<Vec<_>>() != want {
+                rep.fail("scaling the data by a power of two / -1 is not bit-for-bit (f64)", obj(vec![("base", sc.to_json()), ("c", s(format!("{:?}", c)))]));
+            }
+        }
+        // (2) axis and queries * c > 0 (power of two keeps everything exact), derivative values converted
+        let ca = pow2(&mut rng);
+        let mut v2 = sc.clone();
+        v2.ax = Some(sc.axis_vals().iter().map(|x| x * ca).collect());
+        v2.queries = sc.queries.iter().map(|q| q * ca).collect();
+        if let Some(b) = &bc { v2.strat = Strat1::Spline(scale_bc(b, 1.0, ca)); }
+        let r2 = v2.run::<XRat>();
+        rep.evaluations += 1;
+        let ok2 = sc.axis_vals().iter().chain(sc.queries.iter()).all(|&x| exact_mul(x, ca))
+            && bc_values(&bc).iter().all(|&x| exact_mul(x, 1.0 / ca) && exact_mul(x / ca, 1.0 / ca));
+        if !ok2 { rep.count("skipped:inexact-axis-scale"); continue; }
+        if r2 != base {
+            rep.fail("multiplying the axis and the queries by c > 0 (boundary derivatives converted) changes the result (exact run)", obj(vec![("base", sc.to_json()), ("c", s(format!("{:?}", ca)))]));
+        }
+        rep.count("bitwise:axis-scale");
+        if !bits_eq(&v2.run::<f64>(), &basef) {
+            rep.fail("scaling axis and queries by a power of two is not bit-for-bit (f64)", obj(vec![("base", sc.to_json()), ("c", s(format!("{:?}", ca)))]));
+        }
+        // (3) shift of axis and queries on the common dyadic grid
+        let sh = rng.range(-64, 64) as f64 * 0.25;
+        let mut v3 = sc.clone();
+        v3.ax = Some(sc.axis_vals().iter().map(|x| x + sh).collect());
+        v3.queries = sc.queries.iter().map(|q| q + sh).collect();
+        let exact_shift = sc.axis_vals().iter().chain(sc.queries.iter()).all(|&x| Val::from_f64(x + sh) == Val::from_f64(x).add(&Val::from_f64(sh)));
+        if exact_shift {
+            let r3 = v3.run::<XRat>();
+            rep.evaluations += 1;
+            rep.count("shift");
+            if r3 != base {
+                rep.fail("shifting the axis and the queries by the same amount changes the result (exact run)", obj(vec![("base", sc.to_json()), ("shift", s(format!("{:?}", sh)))]));
+            }
+        }
+        // (4) additivity: results for data1 + data2 = sum of results (boundary values added)
+        let mut other = sc.clone();
+        other.rows = gen_rows(&mut rng, sc.n(), sc.lanes(), true);
+        if matches!(bc, Some(Bc::Periodic)) { let nn = other.rows.len(); other.rows[nn - 1] = other.rows[0].clone(); }
+        let mut sum = sc.clone();
+        for (i, r) in sum.rows.iter_mut().enumerate() { for (l, x) in r.iter_mut().enumerate() { *x += other.rows[i][l]; } }
+        if let Some(Bc::Individual(rbs, sh_)) = &bc {
+            // second data set uses the same kinds of conditions with zero derivative values
+            let zero = |sb: &Single| match sb { Single::FirstDeriv(_) => Single::FirstDeriv(0.0), Single::SecondDeriv(_) => Single::SecondDeriv(0.0), o => o.clone() };
+            other.strat = Strat1::Spline(Bc::Individual(rbs.iter().map(|rb| match rb { RowBc::Mixed(l, r) => RowBc::Mixed(zero(l), zero(r)), o => o.clone() }).collect(), sh_.clone()));
+        }
+        let ro = other.run::<XRat>();
+        let rs = sum.run::<XRat>();
+        rep.evaluations += 2;
+        let added: Vec<Out> = base.1.iter().zip(ro.1.iter()).map(|(a, b)| match (a, b) {
+            (Out::Ok(u), Out::Ok(v)) => Out::Ok(u.iter().zip(v).map(|(x, y)| x.add(y)).collect()),
+            (a, _) => a.clone(),
+        }).collect();
+        let oksum = sc.rows.iter().zip(other.rows.iter()).all(|(a, b)| a.iter().zip(b).all(|(&x, &y)| exact_add(x, y)));
+        if oksum && rs.1 != added {
+            rep.fail("the result for a sum of data sets is not the sum of the results (exact run)", obj(vec![("base", sc.to_json()), ("other", other.to_json())]));
+        }
+        if spline { add_spline_coq(&mut rep, ks, &v2, &r2); } else {
+            let term = format!("({}, {})", v2.to_coq(&qc), outs_coq(&r2.0, &r2.1, &|v| v.to_coq_qc()));
+            rep.coq_case(k1, term, v2.to_json());
+        }
+        if ci < 2 { rep.sample(obj(vec![("base", sc.to_json()), ("data_factor", s(format!("{:?}", c))), ("axis_factor", s(format!("{:?}", ca))), ("shift", s(format!("{:?}", sh)))])); }
+    }
+    rep.finish("metamorphic pairs on Linear, Bilinear (independent factors for x and y) and CubicSpline scenarios with every boundary kind: data * c (c = -1, 2^-20..2^20, random dyadic; boundary derivative values converted), axis and queries * 2^k, axis and queries shifted on a common dyadic grid, sum of two data sets; in range and extrapolated; exact run: relation holds exactly; f64: bit-for-bit for powers of two and negation; transformed scenarios also compared with the model in Coq");
+}
